@@ -13,7 +13,7 @@ THEOREMS = [
     ('EAO.Properties.C09', 'EAO.C09.assemble_value', 'value = sum of the assets\' values on their blocks'),
     ('EAO.Properties.C09', 'EAO.C09.assemble_perm', 'for a permutation of the asset list every feasible point rearranges block-wise into a feasible point of the permuted problem with the same value and the same block per asset (assets whose rows mention only their own variables)'),
 ]
-COMPONENTS = ['assemble on captured asset problems for the original, the renamed and the permuted portfolio']
+COMPONENTS = ['hypotheses of the assembly theorems (well-formedness of asset problems) evaluated on every captured real asset problem', 'assemble on captured asset problems for the original, the renamed and the permuted portfolio']
 RULE = ('random portfolios, each re-run (a) under an adversarial injective renaming of assets and nodes (numeric names, prefixes/suffixes of each other, names containing " (", "_internal_", "nan") and (b) under a random permutation of the assets; '
         'values compared and the solution of each variant transported block-wise into the original problem; non-trivial = solved, >= 3 assets, value != 0; distinct by scenario hash')
 ASSUMPTIONS = ['ties between optimal solutions are allowed: solutions are compared by transporting them into the other problem (feasibility + value), not entry by entry']
@@ -66,6 +66,8 @@ def run_case(scn, drv):
     except Exception as e:
         feats.append('setup-error:' + impl.err_class(e))
         return r
+    r['disagreements'] += pf.hyp_wf(rec)
+    feats.append('hypotheses-evaluated')
     r['disagreements'] += pf.corr_assemble(rec, drv)
     pf.solve_rec(rec)
     if isinstance(rec['res'], str):
